@@ -699,18 +699,21 @@ class RuleList:
     """binary_rules(x, y): a list of unknown length of CombinatorResult records; iteration by the find-first loop rule"""
     def __init__(self, I):
         self.I = I
-        self.returned_elem = None
-        self.exit_taken = False
+        self.mode = None
+        self.target = None
 
     def for_loop(self, I, st, env, module, qual):
-        from vc.pyvc import PathDone, _Return
+        """find-first loop rule.  The loop is left in one of three ways: (a) no iteration left it early (every element was visited by an iteration that
+        completed normally; the else block runs), (b) the iteration over an arbitrary element returns or breaks (the code after the loop runs with
+        what this iteration assigned), (c) the iteration over an arbitrary element completes normally - allowed only if the element does not derive
+        the target and the iteration assigned nothing but the loop variable (otherwise the state an arbitrary iteration starts from would not be the
+        state before the loop)."""
+        from vc.pyvc import PathDone, _Return, _Break, _Continue
         w = I.w
-        if st.orelse:
-            raise CheckerError('for/else in guess_combinator_by_triplet')
-        target = env.lookup('target')
+        target = self.target
         if I.branch(I.fresh('loop_exit', z3.BoolSort()), st):
-            # exit: every element was visited by an iteration that completed normally
-            self.exit_taken = True
+            self.mode = 'exit'
+            I.exec_block(st.orelse, env, module, qual)
             return
         m = I.load_module('depccg.types')
         cls = m.env.lookup('CombinatorResult')
@@ -718,15 +721,25 @@ class RuleList:
         elem.attrs = dict(cat=Z(z3.Const('rule_cat', w.Cat)), op_string=Z(z3.Const('rule_op_string', z3.StringSort())),
                           op_symbol=Z(z3.Const('rule_op_symbol', z3.StringSort())), head_is_left=Z(z3.Const('rule_head', z3.BoolSort())))
         self.elem = elem
+        before = dict(env.vars)
         I.assign(st.target, elem, env, module)
+        loopvars = {n.id for n in ast.walk(st.target) if isinstance(n, ast.Name)}
         try:
             I.exec_block(st.body, env, module, qual)
-        except _Return as r:
-            self.returned_elem = r.v
+        except _Return:
+            self.mode = 'match'
             raise
+        except _Break:
+            self.mode = 'match'
+            return
+        except _Continue:
+            pass
         # the iteration completed without leaving the loop: allowed only if this element does not derive the target
         I.oblige('loop-first-match', elem.attrs['cat'].e != target.e, st,
-                 extra='an iteration over a rule whose category equals the target must return that rule (otherwise a derivable node is labelled unknown)')
+                 extra='an iteration over a rule whose category equals the target must leave the loop with that rule (otherwise a derivable node is labelled unknown)')
+        changed = sorted(k for k in env.vars if k not in loopvars and (k not in before or env.vars[k] is not before[k]))
+        if changed:
+            I.oblige('loop-frame', z3.BoolVal(False), st, extra=f'an iteration that does not leave the loop assigns {changed}: outside the find-first loop rule')
         raise PathDone()
 
 
@@ -737,6 +750,7 @@ class OpaqueRules:
     def call(self, I, args, kwargs, node):
         self.calls.append((args, kwargs))
         self.result = RuleList(I)
+        self.result.target = self.target
         return self.result
 
 
@@ -749,6 +763,7 @@ class GuessCombinator(Contract):
         def build(I):
             t, x, y = z3.Const('target', w.Cat), z3.Const('x', w.Cat), z3.Const('y', w.Cat)
             self._rules = OpaqueRules()
+            self._rules.target = Z(t)
             return [self._rules, Z(t), Z(x), Z(y)], {}, [], dict(target=t, x=x, y=y)
         yield Case('any-rules', build)
 
@@ -757,10 +772,10 @@ class GuessCombinator(Contract):
         calls = self._rules.calls
         if rl is None or len(calls) != 1 or calls[0][1] or len(calls[0][0]) != 2 or calls[0][0][0] is not args[2] or calls[0][0][1] is not args[3]:
             return z3.BoolVal(False)        # the grammar must be applied exactly once, to (x, y)
-        if rl.returned_elem is not None:
-            # returned from inside the loop: the very rule being visited, and it derives the target
+        if rl.mode == 'match':
+            # left from inside the loop: the result is the very rule being visited, and it derives the target
             return z3.And(z3.BoolVal(result is rl.elem), rl.elem.attrs['cat'].e == args[1].e)
-        if not rl.exit_taken:
+        if rl.mode != 'exit':
             return z3.BoolVal(False)
         ok, rcat, label, head = decode_result(I, result)
         if not ok:
